@@ -41,8 +41,8 @@ Print Assumptions C08_constant.
 Example C08_nonvacuous :
   exists s, run p_spacing p_keepalive (init 0)
     [Enq 1 (ICmd 1 [65]%N); Enq 1 (ICmd 1 [66]%N);
-     SDeq (ICmd 1 [65]%N); SLogAdd [65]%N; SLockAcq; SWriteA (frame [65]%N); SLockRel;
+     SDeq (ICmd 1 [65]%N); SCheckConn true; SLogAdd [65]%N; SLockAcq; SWriteA (frame [65]%N); SLockRel;
      SSleepStartA p_spacing; Tick p_spacing; SWake;
-     SDeq (ICmd 1 [66]%N); SLogAdd [66]%N; SLockAcq; SWriteA (frame [66]%N)] = Some s
+     SDeq (ICmd 1 [66]%N); SCheckConn true; SLogAdd [66]%N; SLockAcq; SWriteA (frame [66]%N)] = Some s
   /\ length (g_wire s) = 2%nat.
 Proof. eexists. split; [vm_compute; reflexivity|reflexivity]. Qed.
